@@ -1,4 +1,279 @@
-//! Shape/Indent correspondence (placeholder until the hooks for shape.rs are integrated).
+//! Correspondence of every `Indent` / `Shape` method of `src/shape.rs` with the Lean model
+//! `RF/Model/Shape.lean` (driver `RF/Driver/Shape.lean`), through `verif_hooks::shape`.
+//! Shared by C08 (`Indent::to_string*`: the indentation alphabet) and C16 (the arithmetic: which
+//! operations panic, and exactly when).
+//!
+//! Domain: every field and every delta in 0..=N exhaustively (N = 12 in thorough; in quick N = 12 for
+//! the operations with at most four numeric arguments and N = 8 for those with five), tab_spaces 0..=8,
+//! hard_tabs on/off, plus a band around the 80-column static buffer for the `to_string` family, plus
+//! random large values up to 2^40 (the string-building operations are kept below 5000 columns).
+//! A panic of the real code is the answer `panic`.
+use rustfmt_nightly::verif_hooks::shape as hs;
+use rustfmt_nightly::Config;
+
 use crate::util::*;
 
-pub fn shape_cases(_o: &mut Outcome, _rng: &mut Rng, _thorough: bool) {}
+fn guard<T>(f: impl FnOnce() -> T) -> Option<T> {
+    std::panic::catch_unwind(std::panic::AssertUnwindSafe(f)).ok()
+}
+
+fn ei(x: hs::I) -> String {
+    format!("{}:{}", x.0, x.1)
+}
+fn es(x: hs::S) -> String {
+    format!("{}:{}:{}:{}", x.0, x.1, x.2, x.3)
+}
+fn p_i(x: Option<hs::I>) -> String {
+    x.map(ei).unwrap_or_else(|| "panic".into())
+}
+fn p_str(x: Option<String>) -> String {
+    x.map(|s| enc_str(&s)).unwrap_or_else(|| "panic".into())
+}
+fn r_s(x: Result<hs::S, usize>) -> String {
+    match x {
+        Ok(s) => es(s),
+        Err(w) => format!("err:{}", w),
+    }
+}
+fn o_s(x: Option<hs::S>) -> String {
+    x.map(es).unwrap_or_else(|| "none".into())
+}
+
+/// One configuration per (hard_tabs, tab_spaces, max_width, comment_width) actually needed.
+fn cfg(hard_tabs: bool, tab_spaces: usize, max_width: usize, comment_width: usize) -> Config {
+    let mut c = Config::default();
+    c.set().hard_tabs(hard_tabs);
+    c.set().tab_spaces(tab_spaces);
+    c.set().max_width(max_width);
+    c.set().comment_width(comment_width);
+    c
+}
+
+struct Sink<'a> {
+    o: &'a mut Outcome,
+    desc: &'static str,
+}
+
+impl<'a> Sink<'a> {
+    fn put(&mut self, op: &'static str, args: &[usize], answer: String, nontrivial: bool) {
+        let mut req = String::with_capacity(op.len() + args.len() * 4);
+        req.push_str(op);
+        for a in args {
+            req.push(' ');
+            req.push_str(&a.to_string());
+        }
+        if answer == "panic" {
+            self.o.count(&format!("shape:panic:{}", op));
+        } else if answer == "none" || answer.starts_with("err:") {
+            self.o.count(&format!("shape:refused:{}", op));
+        }
+        self.o.push("corr", op, req, answer, self.desc.into(), nontrivial);
+    }
+}
+
+/// the `Indent` string family on one (block, align, hard_tabs, tab_spaces)
+fn string_ops(k: &mut Sink<'_>, b: usize, al: usize, ht: bool, ts: usize, c: &Config) {
+    let nt = b + al > 0;
+    k.put("shape.indent.to_string", &[b, al, ht as usize, ts], p_str(guard(|| hs::indent_to_string((b, al), c))), nt);
+    k.put("shape.indent.to_string_with_newline", &[b, al, ht as usize, ts], p_str(guard(|| hs::indent_to_string_with_newline((b, al), c))), nt);
+}
+
+/// The `to_string` family only (what C08's `indent_shape` / `indent_alphabet` theorems are about).
+pub fn indent_string_cases(o: &mut Outcome, rng: &mut Rng, thorough: bool) {
+    let mut k = Sink { o, desc: "exhaustive" };
+    let mut vals: Vec<usize> = (0..=12).collect();
+    vals.extend(36..=44);
+    vals.extend(76..=84);
+    if thorough {
+        vals.extend([13, 16, 24, 32, 64, 72, 85, 96, 120, 160, 161, 200, 240, 400, 640, 648]);
+    }
+    for ht in [false, true] {
+        for ts in 0..=8usize {
+            let c = cfg(ht, ts, 100, 80);
+            for &b in &vals {
+                for &al in &vals {
+                    string_ops(&mut k, b, al, ht, ts, &c);
+                }
+            }
+            // to_string_inner with every offset (the code only ever passes 0 and 1; 2.. shows the slice panic)
+            for b in 0..=12usize {
+                for al in 0..=12usize {
+                    for off in 0..=12usize {
+                        k.put("shape.indent_to_string", &[b, al, off, ht as usize, ts], p_str(guard(|| hs::indent_to_string_inner((b, al), off, &c))), true);
+                    }
+                }
+            }
+            for &w in &[66usize, 67, 68, 69, 70, 77, 78, 79, 80, 81, 82, 83, 160] {
+                for off in 0..=3usize {
+                    k.put("shape.indent_to_string", &[w, 0, off, ht as usize, ts], p_str(guard(|| hs::indent_to_string_inner((w, 0), off, &c))), true);
+                    k.put("shape.indent_to_string", &[w - 60, 60, off, ht as usize, ts], p_str(guard(|| hs::indent_to_string_inner((w - 60, 60), off, &c))), true);
+                }
+            }
+            // Shape::to_string_with_newline reads (block_indent, offset) only; width and alignment ride along
+            for &b in &vals {
+                for &off in &vals {
+                    let s = (b % 7, b, off % 5, off);
+                    k.put("shape.to_string_with_newline", &[s.0, s.1, s.2, s.3, ht as usize, ts], p_str(guard(|| hs::to_string_with_newline(s, &c))), b + off > 0);
+                }
+            }
+        }
+    }
+    k.desc = "random";
+    for _ in 0..(if thorough { 20000 } else { 2000 }) {
+        let ht = rng.chance(1, 2);
+        let ts = rng.range(0, 8);
+        let c = cfg(ht, ts, 100, 80);
+        let big = |rng: &mut Rng| if rng.chance(1, 3) { rng.below(5000) } else { rng.below(200) };
+        let (b, al) = (big(rng), big(rng));
+        string_ops(&mut k, b, al, ht, ts, &c);
+        let s = (rng.below(1 << 20), b, rng.below(300), al);
+        k.put("shape.to_string_with_newline", &[s.0, s.1, s.2, s.3, ht as usize, ts], p_str(guard(|| hs::to_string_with_newline(s, &c))), true);
+        let off = rng.below(4);
+        k.put("shape.indent_to_string", &[b, al, off, ht as usize, ts], p_str(guard(|| hs::indent_to_string_inner((b, al), off, &c))), true);
+    }
+}
+
+/// the arithmetic of one Shape x delta
+fn shape_delta_ops(k: &mut Sink<'_>, s: hs::S, d: usize) {
+    let a = [s.0, s.1, s.2, s.3, d];
+    let nt = d > 0;
+    k.put("shape.visual_indent", &a, es(hs::visual_indent(s, d)), nt);
+    k.put("shape.block_indent", &a, es(hs::block_indent(s, d)), nt);
+    k.put("shape.block_left", &a, r_s(hs::block_left(s, d)), nt);
+    k.put("shape.add_offset", &a, es(hs::add_offset(s, d)), nt);
+    k.put("shape.saturating_sub_width", &a, es(hs::saturating_sub_width(s, d)), nt);
+    k.put("shape.sub_width", &a, r_s(hs::sub_width(s, d)), nt);
+    k.put("shape.sub_width_opt", &a, o_s(hs::sub_width_opt(s, d)), nt);
+    k.put("shape.shrink_left", &a, r_s(hs::shrink_left(s, d)), nt);
+    k.put("shape.shrink_left_opt", &a, o_s(hs::shrink_left_opt(s, d)), nt);
+    k.put("shape.offset_left", &a, r_s(hs::offset_left(s, d)), nt);
+    k.put("shape.offset_left_opt", &a, o_s(hs::offset_left_opt(s, d)), nt);
+}
+
+/// the operations that read one configuration value next to a Shape
+fn shape_cfg_ops(k: &mut Sink<'_>, s: hs::S, v: usize, c_mw: &Config, c_cw: &Config) {
+    let a = [s.0, s.1, s.2, s.3, v];
+    k.put("shape.with_max_width", &a, es(hs::with_max_width(s, c_mw)), true);
+    k.put("shape.rhs_overhead", &a, hs::rhs_overhead(s, c_mw).to_string(), true);
+    k.put("shape.comment", &a, es(hs::comment(s, c_cw)), true);
+}
+
+fn shape_unary_ops(k: &mut Sink<'_>, s: hs::S) {
+    let a = [s.0, s.1, s.2, s.3];
+    k.put("shape.block", &a, es(hs::block(s)), s.2 > 0);
+    k.put("shape.used_width", &a, hs::used_width(s).to_string(), true);
+    k.put("shape.infinite_width", &a, es(hs::infinite_width(s)), true);
+    k.put("shape.exceeds_max_width_error", &a, hs::exceeds_max_width_error(s).to_string(), true);
+}
+
+fn indent_pair_ops(k: &mut Sink<'_>, a: hs::I, b: hs::I) {
+    let args = [a.0, a.1, b.0, b.1];
+    k.put("shape.indent.add", &args, ei(hs::indent_add(a, b)), true);
+    k.put("shape.indent.sub", &args, p_i(guard(|| hs::indent_sub(a, b))), true);
+}
+
+fn indent_ops(k: &mut Sink<'_>, a: hs::I) {
+    k.put("shape.indent.new", &[a.0, a.1], ei(hs::indent_new(a.0, a.1)), true);
+    k.put("shape.indent.block_only", &[a.0, a.1], ei(hs::indent_block_only(a)), a.1 > 0);
+    k.put("shape.indent.width", &[a.0, a.1], hs::indent_width(a).to_string(), true);
+}
+
+fn indent_n_ops(k: &mut Sink<'_>, a: hs::I, n: usize, c_ts: Option<&Config>, c_mw: &Config) {
+    k.put("shape.indent.add_usize", &[a.0, a.1, n], ei(hs::indent_add_usize(a, n)), n > 0);
+    k.put("shape.indent.sub_usize", &[a.0, a.1, n], p_i(guard(|| hs::indent_sub_usize(a, n))), n > 0);
+    k.put("shape.legacy", &[n, a.0, a.1], es(hs::legacy(n, a)), true);
+    k.put("shape.indented", &[a.0, a.1, n], es(hs::indented(a, c_mw)), true);
+    if let Some(c) = c_ts {
+        k.put("shape.indent.block_indent", &[a.0, a.1, n], ei(hs::indent_block_indent(a, c)), true);
+        k.put("shape.indent.block_unindent", &[a.0, a.1, n], p_i(guard(|| hs::indent_block_unindent(a, c))), true);
+    }
+}
+
+/// Every method of shape.rs against the model.
+pub fn shape_cases(o: &mut Outcome, rng: &mut Rng, thorough: bool) {
+    indent_string_cases(o, rng, thorough);
+    let mut k = Sink { o, desc: "exhaustive" };
+    let n4 = 12usize; // operations with at most four numeric arguments
+    let n5 = if thorough { 12usize } else { 8 }; // five arguments
+    k.put("shape.indent.empty", &[], ei(hs::indent_empty()), true);
+    // one configuration per value of the one option an operation reads
+    let c_mw: Vec<Config> = (0..=n4).map(|v| cfg(false, 4, v, 80)).collect();
+    let c_cw: Vec<Config> = (0..=n4).map(|v| cfg(false, 4, 100, v)).collect();
+    let c_ts: Vec<Config> = (0..=8).map(|v| cfg(false, v, 100, 80)).collect();
+    for b in 0..=n4 {
+        for al in 0..=n4 {
+            indent_ops(&mut k, (b, al));
+            for n in 0..=n4 {
+                indent_n_ops(&mut k, (b, al), n, c_ts.get(n), &c_mw[n]);
+            }
+            for b2 in 0..=n4 {
+                for al2 in 0..=n4 {
+                    indent_pair_ops(&mut k, (b, al), (b2, al2));
+                }
+            }
+        }
+    }
+    for ht in [false, true] {
+        for ts in 0..=8usize {
+            let c = cfg(ht, ts, 100, 80);
+            for w in 0..=40usize {
+                k.put("shape.indent.from_width", &[ht as usize, ts, w], p_i(guard(|| hs::indent_from_width(&c, w))), true);
+            }
+        }
+    }
+    for w in 0..=n4 {
+        for b in 0..=n4 {
+            for al in 0..=n4 {
+                for off in 0..=n4 {
+                    shape_unary_ops(&mut k, (w, b, al, off));
+                }
+            }
+        }
+    }
+    for w in 0..=n5 {
+        for b in 0..=n5 {
+            for al in 0..=n5 {
+                for off in 0..=n5 {
+                    for d in 0..=n5 {
+                        shape_delta_ops(&mut k, (w, b, al, off), d);
+                        shape_cfg_ops(&mut k, (w, b, al, off), d, &c_mw[d], &c_cw[d]);
+                    }
+                }
+            }
+        }
+    }
+    // random large values: usize arithmetic far from the small domain (no overflow below 2^63)
+    k.desc = "random";
+    let big = |rng: &mut Rng| -> usize {
+        match rng.below(4) {
+            0 => rng.below(16),
+            1 => rng.below(1000),
+            2 => rng.below(1 << 20),
+            _ => (rng.next() % (1u64 << 40)) as usize,
+        }
+    };
+    for _ in 0..(if thorough { 60000 } else { 6000 }) {
+        let s = (big(rng), big(rng), big(rng), big(rng));
+        // deltas near the width exercise both sides of every checked subtraction
+        let d = match rng.below(4) { 0 => s.0, 1 => s.0 + 1, 2 => s.0.saturating_sub(1), _ => big(rng) };
+        shape_delta_ops(&mut k, s, d);
+        shape_unary_ops(&mut k, s);
+        let v = match rng.below(3) { 0 => s.1 + s.2, 1 => s.1 + s.3 + s.0, _ => big(rng) };
+        let (cm, cc) = (cfg(false, 4, v, 80), cfg(false, 4, 100, v));
+        shape_cfg_ops(&mut k, s, v, &cm, &cc);
+        let (a, b) = ((s.1, s.2), (big(rng), big(rng)));
+        indent_ops(&mut k, a);
+        indent_pair_ops(&mut k, a, b);
+        indent_pair_ops(&mut k, (a.0.max(b.0), a.1.max(b.1)), (a.0.min(b.0), a.1.min(b.1)));
+        let n = match rng.below(3) { 0 => a.1, 1 => a.1 + 1, _ => big(rng) };
+        let ts = rng.range(0, 8);
+        let ct = cfg(rng.chance(1, 2), ts, 100, 80);
+        indent_n_ops(&mut k, a, n, None, &cfg(false, 4, n, 80));
+        k.put("shape.indent.block_indent", &[a.0, a.1, ts], ei(hs::indent_block_indent(a, &ct)), true);
+        k.put("shape.indent.block_unindent", &[a.0, a.1, ts], p_i(guard(|| hs::indent_block_unindent(a, &ct))), true);
+        let ht = rng.chance(1, 2);
+        let cf = cfg(ht, ts, 100, 80);
+        let w = big(rng);
+        k.put("shape.indent.from_width", &[ht as usize, ts, w], p_i(guard(|| hs::indent_from_width(&cf, w))), true);
+    }
+}
